@@ -9,10 +9,12 @@ package main
 // everything else is certain-absent.  Whatever is observed present must have exactly its bytes.
 
 import (
+	"bytes"
 	"context"
 	"fmt"
 	"io"
 	"math/rand"
+	"regexp"
 	"sort"
 	"strings"
 	"sync"
@@ -54,27 +56,35 @@ func randBytes(rng *rand.Rand, n int) []byte {
 
 func makeWorld(rng *rand.Rand) *world {
 	w := &world{}
-	add := func(data []byte) int {
-		w.Uni = append(w.Uni, sto.FromBytes(data))
+	// refs are sha224 (perkeep's default) except where a hash name is given: sha1 and sha256 refs
+	// have other header lengths in a pack and other directory trees in the file store
+	addH := func(hash string, data []byte) int {
+		w.Uni = append(w.Uni, sto.Blob{Ref: sto.RefOf(hash, data), Data: data})
 		return len(w.Uni) - 1
 	}
-	add(nil)                           // 0: the empty blob
-	add(randBytes(rng, 1))             // 1
-	add(randBytes(rng, 7))             // 2
-	add(randBytes(rng, 40))            // 3
-	add(make([]byte, 64))              // 4: zeros (a zeroed body is indistinguishable from the blob)
-	add(randBytes(rng, 150))           // 5
-	add(randBytes(rng, 185))           // 6: largest record <= 256 bytes
-	add(randBytes(rng, 300))           // 7
-	w.big2 = add(randBytes(rng, 2300)) // 8: larger than maxFileSize
-	w.small = add(randBytes(rng, 20+rng.Intn(150)))
+	add := func(data []byte) int { return addH("sha224", data) }
+	add(nil)                            // 0: the empty blob
+	add(randBytes(rng, 1))              // 1
+	addH("sha1", randBytes(rng, 7))     // 2
+	add(randBytes(rng, 40))             // 3
+	add(make([]byte, 64))               // 4: zeros (a zeroed body is indistinguishable from the blob)
+	addH("sha256", randBytes(rng, 150)) // 5
+	add(randBytes(rng, 185))            // 6: largest record <= 256 bytes
+	addH("sha1", randBytes(rng, 300))   // 7
+	w.big2 = add(randBytes(rng, 2300))  // 8: larger than maxFileSize
+	w.small = addH([]string{"sha224", "sha1", "sha256"}[rng.Intn(3)], randBytes(rng, 20+rng.Intn(150)))
 	w.large = add(randBytes(rng, 700))
 	w.roll = add(randBytes(rng, 2600))
 	w.absent = add(randBytes(rng, 33))
 	w.NH = len(w.Uni)
 	// continuation blobs: together larger than maxFileSize, so continuing always rolls a pack over
-	for _, n := range []int{10, 120, 600, 900, 1100, 50} {
-		add(randBytes(rng, n))
+	for i, n := range []int{10, 120, 600, 900, 1100, 50} {
+		addH([]string{"sha224", "sha1", "sha224", "sha256", "sha224", "sha224"}[i], randBytes(rng, n))
+	}
+	for _, b := range w.Uni {
+		if !b.Ref.Valid() {
+			panic("c03: world blob without a valid ref")
+		}
 	}
 	return w
 }
@@ -251,13 +261,22 @@ type oracle struct {
 	trace      []string
 	violations int
 	fired      map[string]string // base signature -> phase in which it fired first
-	liveKind   string            // real-kill runs on a kv index: kind used for the live store's signatures
+	firedRef   map[string]blob.Ref
+	liveKind   string // real-kill runs on a kv index: kind used for the live store's signatures
+
+	// what identifies the cause of a failure (signature components, see subject / placeReindexError)
+	inflightB int               // universe index of the blob of the operation in flight at the crash; -1 = none
+	touched   map[blob.Ref]bool // blobs received or removed (acked or not) since the restart
+	crashPack string            // diskpacked: base name of the pack the crashed operation wrote to ...
+	crashOff  int64             // ... and the offset of its record ('[' of the header); -1 = unknown
+	packDir   string            // diskpacked: directory whose pack files are evidence for the kv index-lag finding
 }
 
 func newOracle(r *ev.Run, w *world, h history, info caseInfo) *oracle {
 	o := &oracle{r: r, w: w, hist: h, info: info, rng: r.Rand("audit/" + info.CaseID),
 		present: map[blob.Ref][]byte{}, uncertain: map[blob.Ref]bool{},
-		attempted: map[blob.Ref]bool{}, rmInflight: map[blob.Ref]bool{}}
+		attempted: map[blob.Ref]bool{}, rmInflight: map[blob.Ref]bool{}, touched: map[blob.Ref]bool{},
+		inflightB: h.Ops[len(h.Ops)-1].B, crashOff: -1}
 	n := len(h.Ops)
 	for _, op := range h.Ops[:n-1] {
 		b := w.Uni[op.B]
@@ -330,25 +349,53 @@ func sigKind(kind string) string {
 // reported for this case in an earlier phase is the same observation persisting and is not
 // reported again under the later phase's name.  States that only a power loss can produce (the
 // separately counted variant) live under the "power-loss/" signature prefix.
-func (o *oracle) violation(sig, what string) {
+func (o *oracle) violation(sig, what string) { o.violationRef(sig, what, blob.Ref{}) }
+
+// ackedSince: an operation on ref was acknowledged after the restart.  What is observed about ref
+// from now on is a new fact (the store accepted a new receive / remove of it), not an earlier
+// observation persisting.
+func (o *oracle) ackedSince(ref blob.Ref) {
+	for base, r := range o.firedRef {
+		if r == ref {
+			delete(o.fired, base)
+			delete(o.firedRef, base)
+		}
+	}
+}
+
+// violationRef is violation for a failure that concerns one blob of the universe (ref may be
+// invalid: unknown).
+func (o *oracle) violationRef(sig, what string, ref blob.Ref) {
 	o.violations++
 	kind := sigKind(o.info.Kind)
 	if o.liveKind != "" && strings.Contains(sig, "diskpacked-kv") {
-		sig, kind = "real-kill-kv/"+sig, o.liveKind
+		// The "acknowledged index rows sit in the memory of modernc kv" finding is identified by its
+		// evidence, not by the view: the PACK FILES agree with the journal about this blob and only
+		// the live index disagrees.  Anything else seen on the kv-indexed store is reported plainly.
+		if ev := o.kvLagEvidence(sig, ref); ev != "" {
+			sig, kind = "real-kill-kv/"+ev+"/"+sig, o.liveKind
+		} else {
+			sig = strings.Replace(sig, "diskpacked-kv", "diskpacked", 1) // not the kv finding: same site as with any index
+		}
 	}
 	if strings.HasPrefix(kind, "pl-") {
 		sig, kind = "power-loss/"+sig, strings.TrimPrefix(kind, "pl-")
 	}
 	base := sig + "/" + kind
+	phase := o.phase
+	if strings.Contains(sig, "/junk-torn-rewrite") {
+		phase = "" // the subject pins the cause to the crashed remove itself, whatever was done since
+	}
 	if o.fired == nil {
-		o.fired = map[string]string{}
+		o.fired, o.firedRef = map[string]string{}, map[string]blob.Ref{}
 	}
 	if ph, ok := o.fired[base]; ok && ph != o.phase {
 		o.r.Count("violations_persisting_into_later_phase", 1)
 		return
 	}
-	o.fired[base] = o.phase
-	o.r.Violation(base+o.phase, fmt.Sprintf("[%s %s %s/%s%s] %s", o.info.Store, o.info.CaseID, o.info.Kind, o.info.Off, o.phase, what), o.replay())
+	o.fired[base], o.firedRef[base] = o.phase, ref
+	o.r.Note("signatures_reported", base+phase)
+	o.r.Violation(base+phase, fmt.Sprintf("[%s %s %s/%s%s] %s", o.info.Store, o.info.CaseID, o.info.Kind, o.info.Off, o.phase, what), o.replay())
 }
 
 func (o *oracle) logf(format string, a ...any) {
@@ -357,8 +404,130 @@ func (o *oracle) logf(format string, a ...any) {
 	}
 }
 
+// ---- what a failure is about ----
+//
+// A signature names the view and the crash-state kind, and ALSO the blob the failure is about
+// relative to the crash (its "subject") and, for wrong bytes, the form of the damage.  A listed
+// perkeep defect is thereby keyed by what identifies it (e.g. "the blob whose remove was in flight
+// is served with zeroed bytes"); another failure in the same view and state (a neighbouring record
+// damaged, an old acknowledged blob lost) has a different signature.
+//
+//	inflight           the blob of the operation that was in flight at the crash
+//	new                a blob received or removed after the restart (the continued history)
+//	old                any other blob of the universe: its state was settled before the crash
+//	junk-torn-rewrite  a ref outside the universe that is the in-flight blob's ref partly
+//	                   overwritten by the deleted-record marker (xxxx-0000...)
+//	junk               any other ref outside the universe
+//	unplaced           the failure names no blob
+
+func (o *oracle) universeBlob(ref blob.Ref) (sto.Blob, bool) {
+	for _, b := range o.w.Uni {
+		if b.Ref == ref {
+			return b, true
+		}
+	}
+	return sto.Blob{}, false
+}
+
+func (o *oracle) subject(ref blob.Ref) string {
+	if !ref.Valid() {
+		return "unplaced"
+	}
+	if _, ok := o.universeBlob(ref); !ok {
+		return o.junkSubject(ref.String())
+	}
+	if o.inflightB >= 0 && o.inflightB < len(o.w.Uni) && o.w.Uni[o.inflightB].Ref == ref {
+		return "inflight"
+	}
+	if o.touched[ref] {
+		return "new"
+	}
+	return "old"
+}
+
+// junkSubject classifies a ref string that is not in the universe.
+func (o *oracle) junkSubject(s string) string {
+	if o.inflightB < 0 || o.inflightB >= len(o.w.Uni) {
+		return "junk"
+	}
+	x := o.w.Uni[o.inflightB].Ref.String()
+	dash := strings.IndexByte(x, '-')
+	if len(s) != len(x) || s == x || dash < 0 {
+		return "junk"
+	}
+	// deleted-record marker of the same shape
+	d := []byte(x)
+	for i := range d {
+		if i < dash {
+			d[i] = 'x'
+		} else if i > dash {
+			d[i] = '0'
+		}
+	}
+	for k := 1; k < len(x); k++ {
+		if s == string(d[:k])+x[k:] {
+			return "junk-torn-rewrite"
+		}
+	}
+	return "junk"
+}
+
+var (
+	reAfterArg = regexp.MustCompile(`after="[^"]*"`)
+	reRefLike  = regexp.MustCompile(`[a-z0-9]+-[0-9a-f]{8,}`)
+)
+
+// refIn extracts the blob a checker message is about (the text of the cursor argument is skipped).
+func refIn(what string) (blob.Ref, string) {
+	m := reRefLike.FindString(reAfterArg.ReplaceAllString(what, ""))
+	if m == "" {
+		return blob.Ref{}, ""
+	}
+	ref, _ := blob.Parse(m)
+	return ref, m
+}
+
+// damageForm compares what a view delivered with the blob's bytes.
+func damageForm(got, want []byte) string {
+	switch {
+	case bytes.Equal(got, want):
+		return "intact"
+	case len(got) < len(want) && bytes.Equal(got, want[:len(got)]):
+		return "truncated"
+	case len(got) == len(want):
+		for i := range got {
+			if got[i] != want[i] && got[i] != 0 {
+				return "garbled"
+			}
+		}
+		return "zeroed"
+	}
+	return "garbled"
+}
+
+// fetchForm re-fetches ref from the (quiescent) store to name the form of a content mismatch.
+func (o *oracle) fetchForm(s blobserver.Storage, ref blob.Ref) string {
+	b, ok := o.universeBlob(ref)
+	if !ok || s == nil {
+		return "unread"
+	}
+	rc, _, err := s.Fetch(context.Background(), ref)
+	if err != nil {
+		return "unreadable"
+	}
+	defer rc.Close()
+	data, err := io.ReadAll(rc)
+	if err != nil {
+		return "unreadable"
+	}
+	if f := damageForm(data, b.Data); f != "intact" {
+		return f
+	}
+	return "wrong-size" // the bytes are right: the size reported with them was not
+}
+
 // reporter maps the reference-map checker's classes to the C03 signature scheme.
-func (o *oracle) reporter(label string) func(sig, what string) {
+func (o *oracle) reporter(label string, s blobserver.Storage) func(sig, what string) {
 	return func(sig, what string) {
 		class, rest, _ := strings.Cut(sig, "/")
 		op := rest
@@ -372,24 +541,32 @@ func (o *oracle) reporter(label string) func(sig, what string) {
 		if class == "enum-paging" && strings.HasSuffix(what, " 0 times") {
 			class = "enum-missing"
 		}
+		ref, refStr := refIn(what)
+		subj := o.subject(ref)
+		if !ref.Valid() && refStr != "" {
+			subj = o.junkSubject(refStr)
+		}
 		var out string
 		switch class {
 		case "present-missing", "enum-missing":
-			out = "acked-lost/" + label
+			out = "acked-lost/" + label + "/" + subj
 			if reindexed {
-				out = "reindex-lost"
+				out = "reindex-lost/" + subj
 			}
 		case "content":
-			out = "torn-visible/" + label + "." + op
+			out = "torn-visible/" + label + "." + op + "/" + subj
+			if op == "fetch" {
+				out += "-" + o.fetchForm(s, ref)
+			}
 		case "absent-served":
-			out = "extra-present/" + label + "." + op
+			out = "extra-present/" + label + "." + op + "/" + subj
 			if reindexed {
-				out = "reindex-extra"
+				out = "reindex-extra/" + subj
 			}
 		default:
 			out = class + "/" + label + "." + op
 		}
-		o.violation(out, what)
+		o.violationRef(out, what, ref)
 	}
 }
 
@@ -397,7 +574,7 @@ var fullCaps = sto.Caps{Receive: true, Remove: true, SubFetch: true}
 
 // checker returns a reference-map checker over s that shares the oracle's maps.
 func (o *oracle) checker(s blobserver.Storage, label string) *sto.Checker {
-	ck := sto.NewChecker(s, label, fullCaps, o.w.Uni, o.reporter(label))
+	ck := sto.NewChecker(s, label, fullCaps, o.w.Uni, o.reporter(label, s))
 	ck.Present = o.present
 	ck.Uncertain = o.uncertain
 	return ck
@@ -412,9 +589,11 @@ func (o *oracle) done(ck *sto.Checker) {
 func (o *oracle) receive(ck *sto.Checker, i int) {
 	b := o.w.Uni[i]
 	o.logf("receive #%d(%dB)", i, len(b.Data))
+	o.touched[b.Ref] = true
 	ck.Receive(b)
 	if ck.LastErr() == nil {
 		delete(o.rmInflight, b.Ref)
+		o.ackedSince(b.Ref)
 	} else {
 		o.attempted[b.Ref] = true
 	}
@@ -423,9 +602,11 @@ func (o *oracle) receive(ck *sto.Checker, i int) {
 func (o *oracle) remove(ck *sto.Checker, i int) {
 	b := o.w.Uni[i]
 	o.logf("remove #%d(%dB)", i, len(b.Data))
+	o.touched[b.Ref] = true
 	ck.Remove([]sto.Blob{b})
 	if ck.LastErr() == nil {
 		delete(o.rmInflight, b.Ref)
+		o.ackedSince(b.Ref)
 	}
 }
 
@@ -443,6 +624,9 @@ func (o *oracle) continueHistory(ck *sto.Checker, variant int) {
 		o.phase = "-then-reremove"
 		o.remove(ck, last.B)
 	}
+	// what the re-done operation left, seen before anything else is appended behind it
+	ck.Fetch(o.w.Uni[last.B])
+	ck.Stat([]sto.Blob{o.w.Uni[last.B]})
 	nh := o.w.NH
 	for i := nh; i < len(o.w.Uni); i++ {
 		o.receive(ck, i)
@@ -462,42 +646,63 @@ func (o *oracle) continueHistory(ck *sto.Checker, variant int) {
 	o.receive(ck, nh+1) // re-receive after remove
 }
 
+// streamed is one item of a StreamBlobs run.
+type streamed struct {
+	ref   blob.Ref
+	size  uint32
+	token string
+	data  []byte
+	err   error
+}
+
+// runStream collects what StreamBlobs delivers from a continuation token.
+func runStream(bs blobserver.BlobStreamer, token string) ([]streamed, error) {
+	ctx, cancel := context.WithCancel(context.Background())
+	defer cancel()
+	ch := make(chan blobserver.BlobAndToken, 16)
+	errc := make(chan error, 1)
+	go func() { errc <- bs.StreamBlobs(ctx, ch, token) }()
+	var out []streamed
+	for bt := range ch {
+		data, err := slurp(ctx, bt.Blob)
+		out = append(out, streamed{ref: bt.Ref(), size: bt.Size(), token: bt.Token, data: data, err: err})
+	}
+	return out, <-errc
+}
+
 // streamCheck audits blobserver.BlobStreamer: every streamed blob must be known, allowed to be
 // present and byte-exact; every certain-present blob must be streamed (exactly once unless an
-// unacknowledged attempt may have left a second record).
+// unacknowledged attempt may have left a second record); a stream resumed from the continuation
+// token of an item must deliver exactly the items from that one on.
 func (o *oracle) streamCheck(s blobserver.Storage, label string) {
 	bs, ok := s.(blobserver.BlobStreamer)
 	if !ok {
 		return
 	}
-	ctx, cancel := context.WithCancel(context.Background())
-	defer cancel()
-	ch := make(chan blobserver.BlobAndToken, 16)
-	errc := make(chan error, 1)
-	go func() { errc <- bs.StreamBlobs(ctx, ch, "") }()
-	byRef := map[blob.Ref]sto.Blob{}
-	for _, b := range o.w.Uni {
-		byRef[b.Ref] = b
-	}
+	items, err := runStream(bs, "")
 	seen := map[blob.Ref]int{}
-	n := 0
-	for bt := range ch {
-		n++
-		ref := bt.Ref()
+	n := len(items)
+	for _, it := range items {
+		ref := it.ref
 		o.r.Eval(1)
-		want, known := byRef[ref]
+		want, known := o.universeBlob(ref)
 		if !known {
-			o.violation("extra-present/"+label+".stream", fmt.Sprintf("stream delivered %v (size %d), which was never given to the store", ref, bt.Size()))
+			o.violationRef("extra-present/"+label+".stream/"+o.junkSubject(ref.String()), fmt.Sprintf("stream delivered %v (size %d), which was never given to the store", ref, it.size), ref)
 			continue
 		}
-		data, err := slurp(ctx, bt.Blob)
-		if err != nil || string(data) != string(want.Data) || int(bt.Size()) != len(want.Data) {
-			o.violation("torn-visible/"+label+".stream", fmt.Sprintf("stream delivered %v with size %d / %d bytes differing from the blob's %d bytes (err=%v)", ref, bt.Size(), len(data), len(want.Data), err))
+		if it.err != nil || !bytes.Equal(it.data, want.Data) || int(it.size) != len(want.Data) {
+			form := damageForm(it.data, want.Data)
+			if it.err != nil {
+				form = "unreadable"
+			} else if form == "intact" {
+				form = "wrong-size"
+			}
+			o.violationRef("torn-visible/"+label+".stream/"+o.subject(ref)+"-"+form, fmt.Sprintf("stream delivered %v with size %d / %d bytes differing from the blob's %d bytes (err=%v)", ref, it.size, len(it.data), len(want.Data), it.err), ref)
 			continue
 		}
 		_, present := o.present[ref]
 		if !present && !o.uncertain[ref] && !o.attempted[ref] && !o.rmInflight[ref] {
-			o.violation("extra-present/"+label+".stream", fmt.Sprintf("stream delivered %v, which is absent in the journal's map", ref))
+			o.violationRef("extra-present/"+label+".stream/"+o.subject(ref), fmt.Sprintf("stream delivered %v, which is absent in the journal's map", ref), ref)
 			continue
 		}
 		if !present && o.attempted[ref] {
@@ -505,25 +710,57 @@ func (o *oracle) streamCheck(s blobserver.Storage, label string) {
 		}
 		seen[ref]++
 	}
-	err := <-errc
 	if err != nil {
 		o.r.Count("stream_errors", 1)
 		o.r.Note("stream_error_kinds", o.kind())
 	}
-	for ref := range o.present {
-		if o.uncertain[ref] || o.rmInflight[ref] {
+	// completeness, per subject (one report per subject class, refs in universe order)
+	missing := map[string][]string{}
+	dups := map[string][]string{}
+	for _, b := range o.w.Uni {
+		ref := b.Ref
+		if _, ok := o.present[ref]; !ok || o.uncertain[ref] || o.rmInflight[ref] {
 			continue
 		}
 		o.r.Eval(1)
 		switch c := seen[ref]; {
 		case c == 0:
-			o.violation("stream-incomplete/"+label, fmt.Sprintf("acknowledged blob %v was not streamed (stream delivered %d blobs, err=%v)", ref, n, err))
-			return
+			missing[o.subject(ref)] = append(missing[o.subject(ref)], ref.String())
 		case c > 1 && !o.attempted[ref]:
-			o.violation("stream-dup/"+label, fmt.Sprintf("present blob %v streamed %d times", ref, c))
-			return
+			dups[o.subject(ref)] = append(dups[o.subject(ref)], fmt.Sprintf("%v x%d", ref, c))
 		case c > 1:
 			o.r.Count("stream_dup_of_attempted", 1)
+		}
+	}
+	for _, subj := range []string{"old", "inflight", "new"} {
+		if m := missing[subj]; len(m) > 0 {
+			ref, _ := blob.Parse(m[0])
+			o.violationRef("stream-incomplete/"+label+"/"+subj, fmt.Sprintf("%d acknowledged blob(s) not streamed, first %v (stream delivered %d blobs, err=%v)", len(m), m[0], n, err), ref)
+		}
+		if d := dups[subj]; len(d) > 0 {
+			o.violation("stream-dup/"+label+"/"+subj, fmt.Sprintf("present blob streamed more than once: %v", d))
+		}
+	}
+	// resumption: from the token of every second item (long streams: four of them) and of the last one
+	step := 2
+	if len(items) > 10 {
+		step = len(items) / 4
+	}
+	for i := 1; i < len(items); i += step {
+		if i+step >= len(items) {
+			i = len(items) - 1
+		}
+		again, err2 := runStream(bs, items[i].token)
+		o.r.Eval(1)
+		o.r.Count("stream_resumptions", 1)
+		same := len(again) == len(items)-i && (err == nil) == (err2 == nil)
+		for k := 0; same && k < len(again); k++ {
+			a, b := again[k], items[i+k]
+			same = a.ref == b.ref && a.size == b.size && a.token == b.token && bytes.Equal(a.data, b.data)
+		}
+		if !same {
+			o.violation("stream-resume/"+label, fmt.Sprintf("StreamBlobs resumed from token %q (item %d of %d) delivered %d items (err=%v); the full stream delivered %d items from there (err=%v), or they differ", items[i].token, i, len(items), len(again), err2, len(items)-i, err))
+			break
 		}
 	}
 }
@@ -540,4 +777,88 @@ func closeStorage(s blobserver.Storage) {
 	if c, ok := s.(interface{ Close() error }); ok {
 		c.Close()
 	}
+}
+
+// ---- evidence from the pack files ----
+
+var reRecHeader = regexp.MustCompile(`^\[([a-z0-9]+-[0-9a-f]+) ([0-9]+)\]`)
+
+// packRecordsOf walks the pack files of dir the way a reader of the format does and counts the live
+// records of b: intact ones (header + exactly the blob's bytes) and damaged ones.
+func packRecordsOf(dir string, b sto.Blob) (intact, damaged int) {
+	packs, names, err := readPacks(dir)
+	if err != nil {
+		return 0, 0
+	}
+	for _, n := range names {
+		data := packs[n]
+		for len(data) > 0 {
+			m := reRecHeader.FindSubmatch(data)
+			if m == nil {
+				break // torn or foreign bytes: nothing behind them is reachable
+			}
+			var size int
+			fmt.Sscan(string(m[2]), &size)
+			body := data[len(m[0]):]
+			short := len(body) < size
+			if short {
+				size = len(body)
+			}
+			if string(m[1]) == b.Ref.String() {
+				if !short && bytes.Equal(body[:size], b.Data) {
+					intact++
+				} else {
+					damaged++
+				}
+			}
+			data = body[size:]
+		}
+	}
+	return intact, damaged
+}
+
+// kvLagEvidence decides whether a failure seen on the live kv-indexed store after a real SIGKILL is
+// the listed "acknowledged index rows are still in the memory of modernc kv" finding: the pack files
+// must agree with the journal about the blob, so that only the index row can be what is wrong.
+//
+//	row-lost   journal: present; packs: an intact live record; the live store does not have it
+//	row-stale  journal: removed with an ack; packs: no live record left; the live store still lists it
+func (o *oracle) kvLagEvidence(sig string, ref blob.Ref) string {
+	b, ok := o.universeBlob(ref)
+	if !ok || o.packDir == "" {
+		return ""
+	}
+	class, _, _ := strings.Cut(sig, "/")
+	intact, damaged := packRecordsOf(o.packDir, b)
+	_, present := o.present[ref]
+	unc := o.uncertain[ref] || o.rmInflight[ref]
+	switch {
+	case class == "acked-lost" && present && !unc && intact > 0 && damaged == 0:
+		return "row-lost"
+	case (class == "extra-present" || class == "torn-visible") && !present && !unc && intact == 0 && damaged == 0:
+		return "row-stale"
+	}
+	return ""
+}
+
+var reWalkErrAt = regexp.MustCompile(`at ([0-9]+) \(0x[0-9a-f]+\) in "([^"]+)"`)
+
+// placeReindexError says where a Reindex failure lies relative to the record the crashed operation
+// was writing: the listed "a torn tail is never repaired" finding fails AT or BEHIND that record in
+// its pack; a failure before it, or in another pack, has another cause.
+func (o *oracle) placeReindexError(err error) string {
+	m := reWalkErrAt.FindStringSubmatch(err.Error())
+	if m == nil || o.crashPack == "" || o.crashOff < 0 {
+		return "unplaced"
+	}
+	var pos int64
+	fmt.Sscan(m[1], &pos)
+	name := m[2]
+	if i := strings.LastIndexAny(name, "/\\"); i >= 0 {
+		name = name[i+1:]
+	}
+	if name == o.crashPack && pos >= o.crashOff {
+		return "at-crash-record"
+	}
+	return "elsewhere"
 }
